@@ -261,6 +261,7 @@ def run(ck, F):
 
     # unformatted output with an explicit extent: write(buffer, n) / put(c) on the stream or its buffer
     c_string_insertions(ck, F, 'C18')
+    loop_counters(ck, F, 'C18')
     R5 = ck.rule('C18.explicit-extent-writes', 'an unformatted write of the printer (ostream::write / put, streambuf::sputn / sputc) takes its '
                  'bytes from a whole character view (data() and size() of the same object: a spelling of the graph) or from a constant '
                  'whose bytes up to the largest extent the call can ask for are printable: no terminating NUL or control byte reaches the '
@@ -591,4 +592,79 @@ def c_string_insertions(ck, F, prefix):
                      f'{f["id"]} (line {m.get("ln")}) inserts {bad} as a C string: the insertion runs on past the word until it meets a NUL',
                      loc=f['loc'], fn=f['id'])
     if n == 0:
+        ck.check(R, 'inventory', True, '')
+
+
+def loop_counters(ck, F, prefix):
+    """<prefix>.loop-counter-wide-enough: a loop `for (v = ...; v <= bound; step v)` ends only if v can pass the bound.  When the bound is a
+    value the client determines (a parameter, or a local computed from one) of a wider integer type than v, the bound can exceed every
+    value of v: v wraps (a shifted or doubled unsigned counter reaches 0) and the loop never ends."""
+    from symex import _INT_TYPES
+    R = ck.rule(f'{prefix}.loop-counter-wide-enough', 'in every counting loop of the library whose bound is a run-time value taken from a parameter, the '
+                'control variable is of an integer type at least as wide as the bound: a narrower counter wraps around before it passes a large '
+                'bound (a shifted mask becomes 0) and the loop -- reached from the printer through the decomposition of specifier and qualifier '
+                'sets -- never ends', floor=1)
+    ALIAS = {'std::size_t': 'unsigned long', 'size_t': 'unsigned long', 'std::uintptr_t': 'unsigned long', 'uintptr_t': 'unsigned long',
+             'std::ptrdiff_t': 'long', 'ptrdiff_t': 'long', 'std::uint32_t': 'unsigned int', 'std::uint64_t': 'unsigned long',
+             'std::int32_t': 'int', 'std::int64_t': 'long', 'std::uint16_t': 'unsigned short', 'std::uint8_t': 'unsigned char'}
+
+    def width(t):
+        t = (t or '').replace('const ', '').replace('volatile ', '').strip().rstrip('&').strip()
+        t = ALIAS.get(t, t)
+        if t in F.enums:
+            t = ALIAS.get(F.enums[t].get('underlying') or '', F.enums[t].get('underlying') or 'int')
+        w = _INT_TYPES.get(t)
+        return w[0] if w else None
+
+    def bare(e):
+        while isinstance(e, dict) and e.get('k') in ('cast', 'paren') and 'e' in e and e.get('explicit') is None:
+            e = e['e']
+        return e or {}
+
+    def from_param(f, e, depth=0):
+        """the value is a parameter, or computed from one without passing through a size / length observation"""
+        e = bare(e)
+        if e.get('k') == 'ref' and e.get('kind') == 'parm':
+            return True
+        if e.get('k') == 'ref' and e.get('kind') == 'local' and depth < 3:
+            from facts import local_init
+            i = local_init(f, e)
+            return i is not None and from_param(f, i, depth + 1)
+        if e.get('k') == 'call' and (e.get('callee') or {}).get('name') in ('rep', 'to_underlying') and len(e.get('args') or []) == 1:
+            return from_param(f, e['args'][0], depth + 1)
+        if e.get('k') == 'cast' and 'e' in e:
+            return from_param(f, e['e'], depth + 1)
+        return False
+    n_loops = 0
+    for f in sorted(F.fn.values(), key=lambda f: f['id']):
+        if not f['loc'].startswith(('src/', 'include/')) or f.get('body') is None:
+            continue
+        for lp in walk(f['body']):
+            if lp.get('k') not in ('for', 'while') or lp.get('c') is None:
+                continue
+            c = bare(lp['c'])
+            if c.get('k') != 'binop' or c.get('op') not in ('<', '<=', '>', '>=', '!='):
+                continue
+            for vside, bside in ((c['l'], c['r']), (c['r'], c['l'])):
+                v, b = bare(vside), bare(bside)
+                if not (v.get('k') == 'ref' and v.get('kind') == 'local'):
+                    continue
+                if 'cv' in b or 'cv' in (bside or {}):
+                    continue
+                # is v stepped by the loop?
+                stepped = any(m.get('k') in ('binop', 'unop') and (m.get('op') in ('+=', '-=', '*=', '<<=', '>>=', '/=') or '++' in (m.get('op') or '') or '--' in (m.get('op') or ''))
+                              and bare(m.get('l') or m.get('e') or {}).get('k') == 'ref' and bare(m.get('l') or m.get('e') or {}).get('id') == v.get('id')
+                              and bare(m.get('l') or m.get('e') or {}).get('name') == v.get('name')
+                              for m in list(walk(lp.get('inc'))) + list(walk(lp.get('b'))))
+                if not stepped or not from_param(f, b):
+                    continue
+                wv, wb = width(v.get('t')), width(b.get('t'))
+                if wv is None or wb is None:
+                    continue
+                n_loops += 1
+                ck.check(R, f'{contracts.short(contracts.fn_qname(f["id"]))}:{lp.get("ln")}', wv >= wb,
+                         f'{f["id"]} (line {lp.get("ln")}): the loop runs `{v.get("name")}` ({v.get("t")}, {wv} bits) against `{b.get("name") or "a value"}` '
+                         f'({b.get("t")}, {wb} bits) taken from a parameter: for a bound above the largest {wv}-bit value the counter wraps and the loop '
+                         'never ends', loc=f['loc'], fn=f['id'])
+    if n_loops == 0:
         ck.check(R, 'inventory', True, '')
